@@ -7,7 +7,8 @@
 EXTENDS Links, Json
 CONSTANTS N,          \* nodes 1..N
           SelfLoops,  \* TRUE: pairs <<n, n>> included
-          Emit        \* TRUE: print every case with the outcome the specification predicts
+          Emit,       \* TRUE: print every case with the outcome the specification predicts
+          SeqMode     \* TRUE: the configuration uses InitSeq / NextSeq
 
 PairSet == {p \in (1..N) \X (1..N) : SelfLoops \/ p[1] # p[2]}
 \* the pairs in lexicographic order; bit e-1 of a mask stands for Pairs[e]
@@ -66,4 +67,8 @@ EdgeStr(s) == Digits([i \in DOMAIN s |-> 10 * s[i][1] + s[i][2]], 1)
 EmitCase == (Case /\ Emit) =>
   PrintT(<<"G", EdgeStr(es), IF Cyclic(EdgeSet(es)) THEN "cyclic" ELSE "dag",
            OutStr(Variants(es)[1]), OutStr(Variants(es)[2]), OutStr(Variants(es)[3]), OutStr(Variants(es)[4])>>)
+\* number of seed states of the two modes, and the insertion orders of a probe (cross-checked by the harness)
+Probe == <<<<1, 2>>, <<2, 3>>, <<3, 1>>, <<1, 3>>, <<2, 1>>>>
+ASSUME PrintT(<<"SEEDS", IF SeqMode THEN NP ELSE 2 ^ HiBits>>)
+ASSUME PrintT(<<"V", EdgeStr(Variants(Probe)[1]), EdgeStr(Variants(Probe)[2]), EdgeStr(Variants(Probe)[3]), EdgeStr(Variants(Probe)[4])>>)
 =============================================================================
